@@ -259,15 +259,17 @@ pub fn plans(ctx: &WorkerCtx) -> Vec<Plan> {
     let fr = [(0.0, 0.0)];
     let base = Opts { n32: 2, n64: 3, ..Default::default() };
     let mut v = vec![];
-    v.push(Plan { name: "one counter probe (3 ops x 4 value kinds x A/B x 5 start values x 4 CounterZero targets), singles and pairs".into(), cfgs: fam::singles(&ctr, &fr), alpha_for: Box::new(|c: &Cfg| alphabet(c.machines.len(), true)), opts: Opts { depth: if q { 4 } else { 6 }, ..base.clone() } });
+    v.push(Plan { name: "one counter probe (3 ops x 4 value kinds x A/B x 5 start values x 4 CounterZero targets), singles and pairs".into(), cfgs: fam::singles(&ctr, &fr), alpha_for: Box::new(|c: &Cfg| alphabet(c.machines.len(), true)), opts: Opts { depth: if q { 4 } else { 6 }, ..base.clone() }, walk: None });
     let sub: Vec<_> = ctr.iter().step_by(if q { 11 } else { 3 }).cloned().collect();
     let sub2: Vec<_> = ctr.iter().skip(1).step_by(if q { 37 } else { 13 }).cloned().collect();
-    v.push(Plan { name: "two counter probes zeroing on the same event".into(), cfgs: fam::all_pairs(&sub, &sub2, &fr), alpha_for: Box::new(|c: &Cfg| alphabet(c.machines.len(), false)), opts: Opts { depth: if q { 4 } else { 6 }, ..base.clone() } });
+    v.push(Plan { name: "two counter probes zeroing on the same event".into(), cfgs: fam::all_pairs(&sub, &sub2, &fr), alpha_for: Box::new(|c: &Cfg| alphabet(c.machines.len(), false)), opts: Opts { depth: if q { 4 } else { 6 }, ..base.clone() }, walk: None });
     let t: Vec<_> = ctr.iter().step_by(if q { 23 } else { 7 }).cloned().collect();
-    v.push(Plan { name: "three counter probes".into(), cfgs: fam::triples_strided(&t, &fr), alpha_for: Box::new(|c: &Cfg| alphabet(c.machines.len(), false)), opts: Opts { depth: if q { 3 } else { 5 }, ..base.clone() } });
+    v.push(Plan { name: "three counter probes".into(), cfgs: fam::triples_strided(&t, &fr), alpha_for: Box::new(|c: &Cfg| alphabet(c.machines.len(), false)), opts: Opts { depth: if q { 3 } else { 5 }, ..base.clone() }, walk: None });
     let g2: Vec<_> = fam::g2(if q { 1499 } else { 149 }, 9).into_iter().filter(|(_, m)| m.states.iter().any(|s| s.counter.0.is_some() || s.counter.1.is_some())).collect();
-    v.push(Plan { name: "G2 machines with counters (saturation at the top, copy, sampled values), pairs".into(), cfgs: fam::pairs_strided(&g2, 31, 7, &[(0.5, 0.5), (0.0, 0.0)]), alpha_for: Box::new(|c: &Cfg| super::c05::alphabet(c.machines.len(), vec![0], false)), opts: Opts { depth: if q { 3 } else { 4 }, ..base.clone() } });
-    v.push(Plan { name: "G2 machines with counters, single, deeper".into(), cfgs: fam::singles(&g2, &[(0.0, 0.0)]), alpha_for: Box::new(|c: &Cfg| super::c05::alphabet(c.machines.len(), vec![0], false)), opts: Opts { depth: if q { 4 } else { 6 }, ..base.clone() } });
+    v.push(Plan { name: "G2 machines with counters (saturation at the top, copy, sampled values), pairs".into(), cfgs: fam::pairs_strided(&g2, 31, 7, &[(0.5, 0.5), (0.0, 0.0)]), alpha_for: Box::new(|c: &Cfg| super::c05::alphabet(c.machines.len(), vec![0], false)), opts: Opts { depth: if q { 3 } else { 4 }, ..base.clone() }, walk: None });
+    v.push(Plan { name: "G2 machines with counters, single, deeper".into(), cfgs: fam::singles(&g2, &[(0.0, 0.0)]), alpha_for: Box::new(|c: &Cfg| super::c05::alphabet(c.machines.len(), vec![0], false)), opts: Opts { depth: if q { 4 } else { 6 }, ..base.clone() }, walk: None });
+    let corp = fam::corpus(ctx.seed.wrapping_add(51), if q { 150 } else { 1500 });
+    v.push(Plan { name: "corpus of generated 3-6 state machines (sampled), singles and pairs: BFS plus long random walks".into(), cfgs: { let mut c = fam::singles(&corp, &[(0.5, 0.5)]); c.extend(fam::pairs_strided(&corp, 31, 7, &[(0.0, 0.0), (0.5, 0.5)])); c }, alpha_for: Box::new(|c: &Cfg| super::c05::alphabet(c.machines.len(), vec![0], false)), opts: Opts { depth: if q { 1 } else { 2 }, ..base.clone() }, walk: Some((if q { 3 } else { 6 }, 300)) });
     v
 }
 
